@@ -1556,3 +1556,27 @@ def rule_converted_then_raw(ctx: Ctx, rep: Report, rule: str, module_prefixes: t
             rep.ob(rule, f"{q}:{norm(node)[:40]}", False, fi.where(node), f"`{norm(node)[:60]}` measures the caller's spelling `{p_}` after it was converted to `{v}`: hex text is twice as long as the bytes it spells")
     rep.ob(rule, "scanned", True, "btclib:1", f"{n} functions in {module_prefixes}")
     rep.floor(rule, 2)
+
+
+def rule_stream_param_untouched(ctx: Ctx, rep: Report, rule: str, module_prefixes: tuple[str, ...], floor: int) -> None:
+    """A parser takes BinaryData -- octets, or the caller's own stream -- and
+    tells the two apart twice by the argument's type: `bytesio_from_binarydata`
+    wraps octets and passes a stream through, `assert_no_trailing` refuses
+    leftover octets but leaves a caller's stream where it is. Both must see
+    the argument as the caller gave it: a parameter re-bound in between (to a
+    BytesIO "to avoid a copy") makes octets look like a caller's stream, and
+    trailing bytes are accepted."""
+    n = 0
+    for q, fi in sorted(ctx.prog.functions.items()):
+        if not any(q.startswith(p_) for p_ in module_prefixes):
+            continue
+        params = set(fi.params())
+        wraps = [c for c in own_nodes(fi.node) if isinstance(c, ast.Call) and call_name(c) == "bytesio_from_binarydata" and c.args and isinstance(c.args[0], ast.Name) and c.args[0].id in params]
+        tails = [c for c in own_nodes(fi.node) if isinstance(c, ast.Call) and call_name(c) == "assert_no_trailing" and c.args and isinstance(c.args[0], ast.Name) and c.args[0].id in params]
+        for p_ in sorted({c.args[0].id for c in wraps} & {c.args[0].id for c in tails}):
+            rebinds = [a for a in own_nodes(fi.node) if (isinstance(a, ast.Assign) and any(isinstance(t, ast.Name) and t.id == p_ for t in a.targets))
+                       or (isinstance(a, (ast.AugAssign, ast.AnnAssign)) and isinstance(a.target, ast.Name) and a.target.id == p_)]
+            n += 1
+            rep.ob(rule, f"{q}:{p_}", not rebinds, fi.where(rebinds[0] if rebinds else wraps[0]), "wrapped and checked for trailing octets as the caller gave it" if not rebinds else
+                   f"`{norm(rebinds[0])[:60]}` re-binds `{p_}` between the caller and the two helpers that dispatch on its type: octets wrapped here pass for the caller's own stream, and trailing bytes are not refused")
+    rep.floor(rule, floor)
